@@ -26,4 +26,4 @@ def lemmas():
 def bounded(tier, seed, pr):
     from pyvc.boundedrun import run_bounded
 
-    return [run_bounded(pr, "b_overlap.py", "prefix_overlap_detection")]
+    return [run_bounded(pr, "b_overlap.py", "prefix_overlap_detection"), run_bounded(pr, "b_api.py", "native_scenarios_reject", args={"groups": ['reject']})]
